@@ -25,6 +25,9 @@ type Prog struct {
 	Fresh  bool // must run on a fresh state (changes process-wide interpreter state)
 	// Trivial marks programs whose reference trace is trivial by the family's rule
 	Trivial bool
+	// ExpectReject (non-empty: the class of the defect in the program) marks a program the loader
+	// must refuse with a syntax error; the model is not run
+	ExpectReject string
 }
 
 // Gen enumerates programs deterministically, simplest first.
@@ -83,8 +86,26 @@ func (pr *progRunner) one(w *progWorker, p *Prog) {
 	r := pr.r
 	if p.Chunk == nil {
 		p.Chunk = p.Mk()
+		if p.Chunk == nil {
+			return // the generator decided (lazily) that this member is outside the family
+		}
 	}
 	src := programText(p)
+	if p.ExpectReject != "" {
+		o := w.impl.Run(src, 100000)
+		r.Eval(src, !p.Trivial, func() interface{} {
+			return map[string]interface{}{"family": p.Family, "shape": p.Shape, "program": src, "must_be_rejected_because": p.ExpectReject}
+		})
+		r.Count("programs/"+p.Family, 1)
+		r.Count("programs/"+p.Family+"/invalid", 1)
+		switch {
+		case !o.Failed || o.ErrKind == "run" || o.ErrKind == "budget":
+			r.Violation(pr.sigPrefix+p.Family+"/"+p.Shape+"/invalid-program-accepted", "the program is invalid ("+p.ExpectReject+") but was loaded and run: failed="+fmt.Sprint(o.Failed)+" "+o.ErrText+"\nprogram:\n"+src, map[string]interface{}{"family": p.Family, "shape": p.Shape, "program": src})
+		case o.ErrKind != "syntax":
+			r.Violation(pr.sigPrefix+p.Family+"/"+p.Shape+"/load-failed-with-"+o.ErrKind, "the loader must refuse the invalid program ("+p.ExpectReject+") with a syntax error, got "+o.ErrKind+": "+o.ErrText+"\nprogram:\n"+src, map[string]interface{}{"family": p.Family, "shape": p.Shape, "program": src})
+		}
+		return
+	}
 	mo := glrun.RunModel(p.Chunk, pr.setupM)
 	if mo.Indeterminate != "" {
 		r.Count("indeterminate", 1)
